@@ -39,5 +39,7 @@ namespace sqf::opcodes
             auto casted = dynamic_cast<const push*>(p_other);
             return casted != nullptr && casted->m_value == m_value;
         }
+        // equals compares the values (0 and -0 are equal but print differently)
+        virtual std::size_t hash() const override { return m_value.hash(); }
     };
 }
